@@ -16,7 +16,7 @@ From Anthem Require Import Base.ISet Syntax.Fol Syntax.Asp Sem.Domain Sem.Sat Se
   Proofs.SemBase Proofs.DecomposeOk Proofs.StrongOk Proofs.ExternalOk Proofs.AssemblyOk Proofs.RenameOk
   Proofs.C19Ext Proofs.C02Ok Proofs.FagesBridge Proofs.PlaceholderOk Proofs.C02Full Proofs.TightnessOk Proofs.PrivateUnique
   Proofs.CompletionOk Proofs.HeadPred Proofs.HeadPredPipeline Proofs.C02Priv Proofs.C02Behaviour Proofs.C02Complete Proofs.C02Witness
-  Proofs.MissingOutputs.
+  Proofs.MissingOutputs Proofs.C02Unused.
 Open Scope string_scope.
 Open Scope list_scope.
 
@@ -25,12 +25,22 @@ Open Scope list_scope.
                            gives that placeholder (a numeral, symbol, #inf or #sup)
    rpv FI m F              the same replacement in a formula
    restrict S M            the interpretation M cut down to the predicates (symbol/arity) of S
-   ext_voc t P             predicates of P, and the PUBLIC (input and output) predicates of the user guide
+   ext_voc t P             predicates of P, the input predicates of the user guide, and the output
+                           predicates of the user guide THAT OCCUR IN THE TASK (in the specification
+                           side or in the program: External.task_occurring_predicates, the set
+                           `occurring_predicates` of the code since /repo 18b2e85)
+   ext_voc_public t P      predicates of P and ALL public (input and output) predicates of the user guide
    ext_stable_full t FI M P  :=  stable (restrict (ext_voc t P) M)
                                         (ph_program FI (task_placeholders t) P)
                                         (input_facts (restrict (ext_voc t P) M) (task_inputs t))
-        "on P's and the public vocabulary M is a stable model of P plus M's input facts, placeholders
-         read by FI" - in particular an output predicate that does not occur in P is empty in M
+        "on the vocabulary of the task M is a stable model of P plus M's input facts, placeholders
+         read by FI" - in particular an output predicate that does not occur in P but occurs on the
+         other side is empty in M (finding F17; audit A4).  An output predicate that occurs on
+         NEITHER side is outside the vocabulary: no emitted formula mentions it, so an
+         interpretation refutes a problem whatever extent it gives to it, and it is judged on the
+         rest.  ext_stable_public is the same with ext_voc_public; section "unused output
+         predicates" below: the two readings coincide on the interpretations that are empty on
+         the unused output predicates, and the existential theorems hold verbatim in both.
    outputs_occur t         every output predicate declared in the user guide occurs in the specification
                            program and in the program (decidable: outputs_occurb) - NO LONGER a premise
    reindex m M             M read through the renaming of private predicates (p |-> p_p)
@@ -41,11 +51,11 @@ Open Scope list_scope.
    (otherwise rename_conflicting_symbols acts and the symbol_order chain is false for the
    constants: finding F8c, Properties/C12.v); (ii) the private renaming enters as `reindex`
    (faithful under no_rename_clash; F9).
-   Finding F17 (audit A4) is REPAIRED in /repo (70e6ace): a declared output predicate that does not
-   occur in a program now receives the empty completed definition `forall X (p(X) <-> #false)` on
-   that side (Model/External.v: missing_output_definitions), which says exactly what external
-   stability over the public vocabulary says about it (C02_missing_output_empty,
-   C02_empty_definition_meaning).  The former premise `outputs_occur t` of the theorems below is
+   Finding F17 (audit A4) is REPAIRED in /repo (70e6ace, refined by 18b2e85): a declared output
+   predicate that does not occur in a program but occurs on the other side now receives the empty
+   completed definition `forall X (p(X) <-> #false)` on that side (Model/External.v:
+   missing_output_definitions), which says exactly what external stability over the vocabulary of
+   the task says about it (C02_missing_output_empty, C02_empty_definition_meaning).  The former premise `outputs_occur t` of the theorems below is
    gone; the layer-(c) theorems take `c_io_disjoint t = true` instead (input and output declarations
    are disjoint - an applicability condition anthem enforces: InputOutputPredicatesOverlap), which
    the task-level theorems derive from acceptance.  C02_missing_output_regression keeps the witness.
@@ -407,7 +417,8 @@ Proof. exact empty_definition_valid. Qed.
 Print Assumptions C02_empty_definition_meaning.
 
 (* ... and they are added for exactly the declared output predicates that do not occur in the
-   program (the code tests the completed theory; for an accepted task that is the same) *)
+   program (the code tests the completed theory; for an accepted task that is the same) and occur
+   in the task (C02_missing_outputs_occur) *)
 Theorem C02_missing_outputs_are_the_program's :
   forall (t : ext_task) (P : program) (G D : theory) (q : pred),
     c_io_disjoint t = true -> tau_star P = Some G ->
@@ -416,6 +427,13 @@ Theorem C02_missing_outputs_are_the_program's :
     (In q (theory_predicates D) <-> In q (program_preds P)).
 Proof. exact output_in_completion_validated. Qed.
 Print Assumptions C02_missing_outputs_are_the_program's.
+
+Theorem C02_missing_outputs_occur :
+  forall (outs occ : list pred) (D : theory) (f : formula),
+    In f (missing_output_definitions outs occ D) ->
+    exists q, f = empty_definition q /\ In q outs /\ In q occ /\ ~ In q (theory_predicates D).
+Proof. exact missing_outputs_only_occurring. Qed.
+Print Assumptions C02_missing_outputs_occur.
 
 (* Regression for finding F17.  t17 =  specification  out :- in.  out2 :- in.   program  out :- in.
    input: in/0.  output: out/0.  output: out2/0.   --direction forward.
@@ -453,6 +471,122 @@ Proof.
   split; [exact t17_outputs_missing|]. split; [exact t17_right_has_empty_definition|].
   split; [reflexivity|]. split; [exact (t17_left_stable FI)|].
   split; [exact (t17_right_cannot FI)|]. split; [exact (t17_refuted FI)|exact (t17_behaviour_rhs FI)].
+Qed.
+
+(* ---------------- unused output predicates (/repo 18b2e85) ----------------
+   unused_outputs_empty t M := M is empty on every declared output predicate that occurs on neither
+                               side of the task
+   ext_stable_public        := ext_stable_full with ext_voc_public (ALL public predicates in the
+                               vocabulary: the definition of ext_stable_full before 18b2e85)
+   behavioural_difference_public := behavioural_difference with ext_stable_public
+   The theorems above hold for every interpretation M because ext_voc leaves the unused output
+   predicates out.  With ext_voc_public they would be false for an M that is not empty on one of them
+   (C02_unused_output_example: such an M refutes a problem and is a stable model of nothing in the
+   public reading).  Nothing else distinguishes the two readings: *)
+Theorem C02_vocabularies_coincide :
+  forall (t : ext_task) (FI : fint) (M : pint) (P : program),
+    unused_outputs_empty t M -> (ext_stable_public t FI M P <-> ext_stable_full t FI M P).
+Proof. exact ext_stable_public_iff. Qed.
+Print Assumptions C02_vocabularies_coincide.
+
+(* an external stable model in the public reading is empty on the unused output predicates, hence
+   one in the reading of ext_voc *)
+Theorem C02_public_stable_unused_empty :
+  forall (t : ext_task) (FI : fint) (M : pint) (P : program),
+    c_io_disjoint t = true -> incl (program_preds P) (task_occurring_predicates t) ->
+    ext_stable_public t FI M P -> unused_outputs_empty t M /\ ext_stable_full t FI M P.
+Proof.
+  intros t FI M P Hio HP Hst.
+  exact (conj (ext_stable_public_unused t FI M P Hio HP Hst) (ext_stable_public_full t FI M P Hio HP Hst)).
+Qed.
+Print Assumptions C02_public_stable_unused_empty.
+
+(* C02_countermodel_sound in the public reading: the one hypothesis on the interpretation *)
+Theorem C02_countermodel_sound_public_vocabulary :
+  forall (fuel : nat) (t : ext_task) (L : program) w pbs lft rgt,
+    et_specification t = inl L -> et_proof_outline t = [] ->
+    external_decompose_full fuel t = XOk w pbs ->
+    is_tight L = true -> is_tight (et_program t) = true ->
+    task_left tau_star_total completion (simp_classic_total fuel) t L = Some lft ->
+    task_right tau_star_total completion (simp_classic_total fuel) t = Some rgt ->
+    (forall vt, task_validated tau_star_total completion (simp_classic_total fuel) t = Some vt -> validated_no_clash vt) ->
+    forall (FI : fint) (M : pint),
+      unused_outputs_empty t M ->
+      refutes_some FI M pbs ->
+      (dir_forward (et_direction t) = true /\
+       ext_stable_public t FI M L /\
+       ~ exists N, pub_agree t N (reindex (task_mapping t) M) /\ ext_stable_public t FI N (et_program t)) \/
+      (dir_backward (et_direction t) = true /\
+       ext_stable_public t FI (reindex (task_mapping t) M) (et_program t) /\
+       ~ exists N, pub_agree t N M /\ ext_stable_public t FI N L).
+Proof. exact countermodel_sound_public. Qed.
+Print Assumptions C02_countermodel_sound_public_vocabulary.
+
+(* C02_countermodel_complete and C02_external_equivalence hold VERBATIM in the public reading *)
+Theorem C02_countermodel_complete_public_vocabulary :
+  forall (fuel : nat) (t : ext_task) (L : program) w pbs lft rgt,
+    et_specification t = inl L -> et_proof_outline t = [] ->
+    external_decompose_full fuel t = XOk w pbs ->
+    is_tight L = true -> is_tight (et_program t) = true ->
+    task_left tau_star_total completion (simp_classic_total fuel) t L = Some lft ->
+    task_right tau_star_total completion (simp_classic_total fuel) t = Some rgt ->
+    (forall vt, task_validated tau_star_total completion (simp_classic_total fuel) t = Some vt -> validated_no_clash vt) ->
+    rename_faithful t L -> ug_over_inputs t ->
+    forall (FI : fint) (T : pint),
+      behavioural_difference_public t L FI T -> exists M, pub_agree t M T /\ refutes_some FI M pbs.
+Proof. exact countermodel_complete_public. Qed.
+Print Assumptions C02_countermodel_complete_public_vocabulary.
+
+Theorem C02_external_equivalence_public_vocabulary :
+  forall (fuel : nat) (t : ext_task) (L : program) w pbs lft rgt,
+    et_specification t = inl L -> et_proof_outline t = [] ->
+    external_decompose_full fuel t = XOk w pbs ->
+    is_tight L = true -> is_tight (et_program t) = true ->
+    task_left tau_star_total completion (simp_classic_total fuel) t L = Some lft ->
+    task_right tau_star_total completion (simp_classic_total fuel) t = Some rgt ->
+    (forall vt, task_validated tau_star_total completion (simp_classic_total fuel) t = Some vt -> validated_no_clash vt) ->
+    rename_faithful t L -> ug_over_inputs t ->
+    forall FI : fint,
+      (exists M, refutes_some FI M pbs) <-> (exists T, behavioural_difference_public t L FI T).
+Proof. exact external_equivalence_public. Qed.
+Print Assumptions C02_external_equivalence_public_vocabulary.
+
+(* t18 = t6 with the additional declaration  output: unused/2.  (occurs on neither side).
+   anthem emits exactly the problems of t6 - no formula mentions unused/2 - and
+   M18 = {in, q, out} + every atom unused(_,_) refutes forward_problem_0.  Every premise of
+   C02_countermodel_sound is discharged; THROUGH it M18 is an external stable model of the
+   specification program that the program cannot match.  In the public reading M18 is an external
+   stable model of neither program: C02_countermodel_sound with ext_voc_public would be false. *)
+Example C02_unused_output_example : forall FI : fint,
+  et_specification t18 = inl L6 /\ et_proof_outline t18 = [] /\
+  external_decompose_full full_fuel t18 = XOk [] pbs18 /\
+  (pbs18 = pbs6 /\ lft18 = lft6 /\ rgt18 = rgt6) /\
+  (is_tight L6 = true /\ is_tight (et_program t18) = true) /\
+  task_left tau_star_total completion (simp_classic_total full_fuel) t18 L6 = Some lft18 /\
+  task_right tau_star_total completion (simp_classic_total full_fuel) t18 = Some rgt18 /\
+  (forall vt, task_validated tau_star_total completion (simp_classic_total full_fuel) t18 = Some vt -> validated_no_clash vt) /\
+  (In (mkpred "unused" 2) (ug_output_predicates (et_user_guide t18)) /\
+   ~ In (mkpred "unused" 2) (task_occurring_predicates t18) /\
+   ~ In (mkpred "unused" 2) (ext_voc t18 L6) /\ ~ In (mkpred "unused" 2) (ext_voc t18 R6) /\
+   In (mkpred "unused" 2) (ext_voc_public t18 L6)) /\
+  ~ unused_outputs_empty t18 M18 /\
+  refutes_some FI M18 pbs18 /\
+  ((dir_forward (et_direction t18) = true /\
+    ext_stable_full t18 FI M18 L6 /\
+    ~ exists N, pub_agree t18 N (reindex (task_mapping t18) M18) /\ ext_stable_full t18 FI N (et_program t18)) \/
+   (dir_backward (et_direction t18) = true /\
+    ext_stable_full t18 FI (reindex (task_mapping t18) M18) (et_program t18) /\
+    ~ exists N, pub_agree t18 N M18 /\ ext_stable_full t18 FI N L6)) /\
+  ~ ext_stable_public t18 FI M18 L6 /\ ~ ext_stable_public t18 FI M18 (et_program t18).
+Proof.
+  intros FI.
+  split; [reflexivity|]. split; [reflexivity|]. split; [exact t18_accepted|]. split; [exact t18_same_problems|].
+  split; [exact t6_tight|]. split; [exact t18_left|]. split; [exact t18_right|]. split; [exact t18_no_clash|].
+  split; [exact t18_unused|]. split; [exact t18_not_empty|]. split; [exact (t18_refuted FI)|].
+  split; [exact (t18_behaviour_rhs FI)|].
+  split; apply t18_public_not_stable.
+  - exact (spec_program_occurring t18 L6 eq_refl).
+  - exact (program_occurring t18).
 Qed.
 
 (* ---------------- non-vacuity of the headline theorems (audit A1) ----------------
